@@ -90,3 +90,157 @@ def run_statics(prog, rec):
                    q, t.get('s'), 'never read by an operation (write-only / self-updating counter)' if not reads else
                    'read at %s: its value survives from one operation to the next' % [nloc(x) for _, x in reads[:3]]))
     rec.count('R15.d mutable statics', n, 6)
+
+
+def scoped_statics(prog, rec, rule, key, dirs, what):
+    """The R15.d use classification restricted to the units under `dirs`, reported as `rule`: a mutable object with static storage
+    declared there (a static local included) that the code reads couples objects / operations / threads that share nothing else."""
+    before = list(rec.obls)
+    saved = dict(rec.instances)
+    run_statics(prog, rec)
+    new = [o for o in rec.obls if o not in before]
+    mine = [o for o in new if str(o.where).startswith(tuple(dirs))]
+    rec.obls = before
+    rec.instances = saved
+    bad = [o for o in mine if o.ok is False]
+    for o in bad:
+        rec.ob(rule, '%s::%s' % (key, o.key.split('@')[-1]), False, o.where, o.detail)
+    rec.ob(rule, key, not bad, dirs[0],
+           'mutable objects with static storage declared under %s: %d%s' % (
+               ', '.join(dirs), len(mine), '' if not bad else ' - read by %s: objects that share nothing else influence each other' % what))
+
+
+STREAM_FUNCS = {'fgetc': 0, 'getc': 0, 'fputc': 1, 'putc': 1, 'ungetc': 1, 'fread': 3, 'fwrite': 3, 'fseek': 0, 'ftell': 0, 'rewind': 0,
+                'fgets': 2, 'fputs': 1, 'fscanf': 0, 'fprintf': 0, 'feof': None, 'ferror': None}
+
+
+def _effects(n):
+    """Targets whose state the evaluation of expression n changes: ('stream', decl) for stdio calls that move a stream,
+    ('var', decl) for assignments / ++ / --, ('call', q) for calls of non-const member functions on a named object."""
+    out = set()
+    for x in walk(n):
+        k = x.get('k')
+        if k == 'CallExpr':
+            q = (x.get('callee') or {}).get('q')
+            if q in STREAM_FUNCS and STREAM_FUNCS[q] is not None and len(x.get('args', [])) > STREAM_FUNCS[q]:
+                a = strip(x['args'][STREAM_FUNCS[q]])
+                d = a.get('d') or (a.get('k') == 'MemberExpr' and a.get('d'))
+                if d:
+                    out.add(('stream', d))
+        elif k in ('UnaryOperator',) and x.get('op') in ('++', '--'):
+            e = strip(x.get('e') or {})
+            if e.get('d'):
+                out.add(('var', e['d']))
+        elif (k == 'BinaryOperator' and x.get('op') == '=') or k == 'CompoundAssignOperator':
+            e = strip(x.get('lhs') or {})
+            if e.get('d'):
+                out.add(('var', e['d']))
+    return out
+
+
+def unsequenced(prog, rec, rule, key, dirs):
+    """Two arguments of one call, or the two operands of an arithmetic / bitwise / comparison operator, whose evaluations both
+    change the same stream or variable: the language does not say which happens first, so the result differs between compilers."""
+    bad = []
+    nsites = 0
+    for f in prog.functions.values():
+        if f.get('body') is None or not str(f.get('file', '')).startswith(tuple(dirs)):
+            continue
+        for n in walk(f['body']):
+            k = n.get('k')
+            parts = None
+            if k in ('CallExpr', 'CXXMemberCallExpr', 'CXXConstructExpr') and len(n.get('args') or []) >= 2:
+                parts = n['args']
+            elif k == 'BinaryOperator' and n.get('op') not in ('&&', '||', ',', '=') and n.get('lhs') is not None:
+                parts = [n['lhs'], n['rhs']]
+            if not parts:
+                continue
+            effs = [_effects(p) for p in parts]
+            if sum(1 for e in effs if e) >= 2:
+                nsites += 1
+                for i in range(len(effs)):
+                    for j in range(i + 1, len(effs)):
+                        both = effs[i] & effs[j]
+                        if both:
+                            bad.append((nloc(n), f['q'], sorted(both)))
+    for wh, fn, both in bad:
+        rec.ob(rule, '%s::%s' % (key, fn), False, wh,
+               'two operands / arguments evaluated in unspecified order both change %s: which value goes where depends on the compiler' % (both,))
+    rec.ob(rule, key, not bad, dirs[0], 'no call or operator in %s has two operands whose evaluations change the same stream or variable (%d site(s) with effects on both sides examined)' % (', '.join(dirs), nsites))
+
+
+PURE_EXTERNALS = {'strlen', 'memcmp', 'strcmp', 'strncmp', 'isalnum', 'isalpha', 'isdigit', 'abs', 'std::min', 'std::max', 'feof', 'ferror',
+                  '__builtin_expect', 'std::basic_string::size', 'std::basic_string::length', 'std::basic_string::empty', 'std::basic_string::c_str'}
+
+
+def has_effects(prog, fn, memo=None, depth=0):
+    """Does calling fn change anything but its own locals (stores through members / globals / pointers, waits, locks, I/O,
+    allocation), directly or through what it calls?  Unknown callees count as effects."""
+    memo = {} if memo is None else memo
+    if fn['id'] in memo:
+        return memo[fn['id']]
+    memo[fn['id']] = False      # recursion guard
+    res = False
+    if fn.get('body') is None or depth > 8:
+        res = True
+    else:
+        for x in walk(fn['body']):
+            k = x.get('k')
+            if k in ('CXXNewExpr', 'CXXDeleteExpr', 'CXXThrowExpr'):
+                res = True
+            elif (k == 'BinaryOperator' and x.get('op') == '=') or k == 'CompoundAssignOperator' or (k == 'UnaryOperator' and x.get('op') in ('++', '--')):
+                tgt = strip(x.get('lhs') or x.get('e') or {})
+                if not (tgt.get('k') == 'DeclRefExpr' and str(tgt.get('d', '')).startswith('L:')):
+                    res = True
+            elif k in ('CallExpr', 'CXXMemberCallExpr', 'CXXOperatorCallExpr', 'CXXConstructExpr'):
+                cal = x.get('callee') or {}
+                g = prog.functions.get(cal.get('m')) if cal.get('m') else None
+                if g is not None and g.get('body') is not None:
+                    if has_effects(prog, g, memo, depth + 1):
+                        res = True
+                elif cal.get('q') in PURE_EXTERNALS or (k == 'CXXConstructExpr' and not cal.get('q')):
+                    pass
+                else:
+                    res = True
+            if res:
+                break
+    memo[fn['id']] = res
+    return res
+
+
+def assert_conditions(prog, rec, rule, key, dirs):
+    """The condition of an assert() is evaluated in debug builds only (NDEBUG removes it): if it has an effect - a wait, a store, a
+    call that changes state - the release build behaves differently from the code as written (and as analysed here, with asserts on)."""
+    bad, n = [], 0
+    memo = {}
+    for f in prog.functions.values():
+        if f.get('body') is None or not str(f.get('file', '')).startswith(tuple(dirs)):
+            continue
+        for x in walk(f['body']):
+            if x.get('k') != 'ConditionalOperator':
+                continue
+            arms = [x.get('then'), x.get('else')]
+            if not any(y.get('k') == 'CallExpr' and (y.get('callee') or {}).get('q') in ('__assert_fail', '__assert', '__assert_rtn', '_wassert')
+                       for a in arms if a for y in walk(a)):
+                continue
+            n += 1
+            why = None
+            for y in walk(x.get('cond')):
+                k = y.get('k')
+                if (k == 'BinaryOperator' and y.get('op') == '=') or k == 'CompoundAssignOperator' or (k == 'UnaryOperator' and y.get('op') in ('++', '--')):
+                    why = 'an assignment'
+                elif k in ('CallExpr', 'CXXMemberCallExpr', 'CXXOperatorCallExpr'):
+                    cal = y.get('callee') or {}
+                    g = prog.functions.get(cal.get('m')) if cal.get('m') else None
+                    if g is not None:
+                        if has_effects(prog, g, memo):
+                            why = 'a call of %s, which changes state (waits, stores or calls something that does)' % g['q']
+                    elif cal.get('q') not in PURE_EXTERNALS:
+                        why = 'a call of %s' % cal.get('q')
+                if why:
+                    break
+            if why:
+                bad.append((nloc(x), f['q'], why))
+    for wh, fn, why in bad:
+        rec.ob(rule, '%s::%s' % (key, fn), False, wh, 'the condition of this assert contains %s: with NDEBUG (the release build) it is not evaluated at all' % why)
+    rec.ob(rule, key, not bad, dirs[0], '%d assert condition(s) in %s, none with an effect that a release build would lose' % (n, ', '.join(dirs)))
